@@ -52,6 +52,7 @@ func LawShapes(thorough bool) []*Shape {
 	}
 	out = append(out, UserDefined()...)
 	out = append(out, Collide(thorough)...)
+	out = append(out, Combos()...)
 	out = append(out, Names(AnnVJL)...)
 	out = append(out, Grouped(AnnVJL)...)
 	if thorough {
@@ -77,6 +78,8 @@ func JSONShapes(thorough bool) []*Shape {
 			out = append(out, FieldCount(a, n))
 		}
 		out = append(out, Generics(a)...)
+		out = append(out, Mixed(a)...)
+		out = append(out, EmbeddedPairs(a)...)
 	}
 	out = append(out, OneFieldTags(AnnVJ, []tagVariant{tagJSON, tagJSONOE, tagJSONNoN, tagJSONDsh, tagFP, tagOther, tagTwo})...)
 	out = append(out, Grouped(AnnVJ)...)
@@ -194,6 +197,10 @@ func scenario(x *mc.X, p *Package) {
 		case "compile":
 			if p.Mode == ModeLaws {
 				x.Report("compile/"+sr.ID, "gombok accepts this declaration (exit status 0) but its output does not compile:\n%s\n%s", sr.Decl, sr.Detail)
+			} else if sr.LawOnly {
+				// gombok's output compiles, but the law test, which only calls what README documents for
+				// @fp.Value + @fp.Json (AsMutable, the Mutable type, UnmarshalJSON), does not: a member is missing
+				x.Report("law/Json-members/"+sr.ID, "the generated code compiles but lacks members the @fp.Json laws call (Mutable type / AsMutable / UnmarshalJSON):\n%s\n%s", sr.Decl, sr.Detail)
 			} else {
 				x.Count("skipped-does-not-compile(C07)", 1)
 			}
